@@ -104,8 +104,11 @@ class C02(Monitor):
             # accounting for everything the new archive does not hold (the per-call clause is still checked)
             retr = set(tr.post.arch or ()) if tr.post.archived else set()
         if legit:
+            # what had reached the attached archive stays on record across a re-decoration / pickling: a second
+            # decorator instance sharing the archive must find it there
+            keep = set(tr.pre.arch or ()) if (kind in ('redec', 'reclone') and tr.pre.archived) else set()
             for k in list(self.evals):
-                if k not in retr:
+                if k not in retr and k not in keep:
                     del self.evals[k]
         return out
 
@@ -300,7 +303,7 @@ class C07(Monitor):
                 elif tr.post.arch[k] != v:
                     out.append((_sig(cfg, 'C07', 'evicted-archived-wrong-value', backend=cfg['backend']),
                                 'entry %r left memory with value %r but archive holds %r' % (k, v, tr.post.arch[k])))
-        if kind in CALLS + ('dump', 'dumpk', 'dumpks', 'load', 'loadk', 'loadks', 'lookup', 'key', 'info', 'arch'):
+        if kind in CALLS + ('dump', 'dumpk', 'dumpks', 'load', 'loadk', 'loadks', 'lookup', 'key', 'info', 'arch', 'redec', 'reclone'):
             # cache traffic never changes or removes an archived entry
             for side_pre, side_post, name in ((tr.pre.arch, tr.post.arch, 'archive'), (tr.pre.swap, tr.post.swap, 'parked archive')):
                 if kind == 'arch':
@@ -357,7 +360,15 @@ class C15(Monitor):
             out.append((_sig(cfg, 'C15', 'maxsize-misreported'), 'info().maxsize=%r, configured %r' % (post[3], m)))
         if post[4] != len(tr.post.mem):
             out.append((_sig(cfg, 'C15', 'size-misreported'), 'info().size=%r but %d entries resident' % (post[4], len(tr.post.mem))))
-        if kind in CALLS and not tr.incoherent:
+        if kind == 'raiseu':
+            if d != (0, 0, 0) and tr.exc is not None:
+                out.append((_sig(cfg, 'C15', 'wrong-delta', cls='raise-unkeyable'),
+                            'a call with an un-keyable argument whose function raised changed (hit,miss,load) by %r' % (d,)))
+        elif kind == 'callu':
+            if tr.exc is None and not tr.extra.get('keyable') and d != (0, 1, 0):
+                out.append((_sig(cfg, 'C15', 'wrong-delta', cls='miss-unkeyable'),
+                            'a completed call with an un-keyable argument changed (hit,miss,load) by %r, expected (0, 1, 0)' % (d,)))
+        elif kind in CALLS and not tr.incoherent:
             if tr.exc is not None:
                 want = (0, 0, 0)
                 cls = 'raise'
@@ -397,7 +408,7 @@ class C15(Monitor):
         return out
 
     def nontrivial(self, S, tr):
-        return tr.ev[0] in CALLS + ('clear', 'clearks')
+        return tr.ev[0] in CALLS + ('clear', 'clearks', 'raiseu', 'callu')
 
 
 class C16(Monitor):
@@ -409,10 +420,10 @@ class C16(Monitor):
         cfg = self.cfg
         if tr.ev[0] == 'callu':
             return self.step_unkeyable(S, tr)
-        if tr.ev[0] != 'raise':
+        if tr.ev[0] not in ('raise', 'raiseu'):
             return []
         out = []
-        kind = tr.ev[2]
+        kind = tr.ev[2] if tr.ev[0] == 'raise' else 'Boom-unkeyable-%s' % tr.extra.get('value_kind')
         evald = len(tr.logdelta)
         if evald == 0:
             # answered from the cache: the function was never asked, nothing can raise
@@ -463,7 +474,7 @@ class C16(Monitor):
         return out
 
     def nontrivial(self, S, tr):
-        return (tr.ev[0] == 'raise' and len(tr.logdelta) == 1) or (tr.ev[0] == 'callu' and not tr.extra.get('keyable', True))
+        return (tr.ev[0] in ('raise', 'raiseu') and len(tr.logdelta) == 1) or (tr.ev[0] == 'callu' and not tr.extra.get('keyable', True))
 
 
 class C18(Monitor):
